@@ -23,7 +23,7 @@ var profiles = map[string][]weighted{
 	"commit": {{"apply", 35}, {"tick", 6}, {"cutleader", 8}, {"partition", 8}, {"isolate", 4}, {"heal", 10}, {"addvoter", 2}, {"addnonvoter", 2},
 		{"demote", 2}, {"remove", 1}, {"crash", 4}, {"restart", 5}, {"barrier", 2}, {"lossy", 2}, {"join", 2}, {"flakyreads", 3}},
 	"membership": {{"apply", 20}, {"tick", 6}, {"addvoter", 9}, {"addnonvoter", 6}, {"demote", 7}, {"remove", 8}, {"transfer", 6}, {"isolate", 6},
-		{"heal", 8}, {"crash", 5}, {"restart", 6}, {"partition", 4}, {"crashop", 4}, {"reload", 2}, {"cutleader", 2}, {"cfgrestart", 3}, {"join", 6}, {"snapcfg", 4}, {"snapshot", 3}},
+		{"heal", 8}, {"crash", 5}, {"restart", 6}, {"partition", 4}, {"crashop", 4}, {"reload", 2}, {"cutleader", 2}, {"cfgrestart", 3}, {"join", 10}, {"snapcfg", 4}, {"snapshot", 3}},
 	"clients": {{"apply", 45}, {"tick", 5}, {"barrier", 8}, {"transfer", 6}, {"isolate", 5}, {"heal", 6}, {"remove", 2}, {"demote", 1}, {"crash", 4},
 		{"restart", 5}, {"cutleader", 3}, {"lossy", 2}, {"snapshot", 2}, {"inheritedtail", 4}, {"inflightfault", 3}, {"slowtransfer", 4}},
 	"verify": {{"verify", 25}, {"cutleader", 10}, {"partition", 8}, {"isolate", 5}, {"heal", 10}, {"apply", 15}, {"lossy", 6}, {"addnonvoter", 2},
@@ -216,7 +216,7 @@ func genAction(t *rapid.T, p *Program, ws []weighted) Action {
 		a.Arg = rapid.IntRange(2, 6).Draw(t, "odds")
 	case "join":
 		a.N = rapid.IntRange(0, 1).Draw(t, "asNonvoter")
-		a.Arg = oneOf(t, "joinFault", 0, 0, 0, 1, 2, 3)
+		a.Arg = oneOf(t, "joinFault", 0, 0, 1, 1, 1, 2, 3)
 	case "inheritedtail":
 		a.N = oneOf(t, "tail", 1, 2, 3, 5)
 		a.Arg = oneOf(t, "fresh", 1, 2, 3)
